@@ -1757,6 +1757,151 @@ Proof.
   repeat split; try assumption; try reflexivity. lia.
 Qed.
 
+(* ------------------------------------------------------------------ *)
+(** ** bytes consumed by the decoder = ncmpio_hdr_len_NC of the decoded header *)
+Lemma len_u32 : forall l v r, p_u32 l = Some (v, r) -> Zlen l = 4 + Zlen r.
+Proof.
+  intros l v r H. unfold p_u32 in H. destruct l as [|a [|b [|c [|d r']]]]; try discriminate.
+  cbn [get_u32] in H. inversion H; subst. rewrite !Zlen_cons. lia.
+Qed.
+
+Lemma len_u64 : forall l v r, p_u64 l = Some (v, r) -> Zlen l = 8 + Zlen r.
+Proof.
+  intros l v r H. unfold p_u64, get_u64 in H.
+  destruct (get_u32 l) as [[hi r1]|] eqn:E1; [|discriminate].
+  destruct (get_u32 r1) as [[lo r2]|] eqn:E2; [|discriminate]. inversion H; subst.
+  pose proof (len_u32 _ _ _ E1). pose proof (len_u32 _ _ _ E2). lia.
+Qed.
+
+Lemma len_nn : forall fmt l v r, fmt = 1 \/ fmt = 2 \/ fmt = 5 -> p_nn fmt l = Some (v, r) ->
+  Zlen l = sz_nn fmt + Zlen r.
+Proof.
+  intros fmt l v r Hf H. unfold p_nn, sz_nn in *.
+  destruct Hf as [-> | [-> | ->]]; cbn [Z.ltb Z.compare Z.eqb Pos.compare Pos.compare_cont Pos.eqb] in *;
+    first [now apply len_u32 in H | now apply len_u64 in H].
+Qed.
+
+Lemma len_bytes : forall n l b r, p_bytes n l = Some (b, r) -> Zlen l = n + Zlen r /\ Zlen b = n.
+Proof.
+  intros n l b r H. apply p_bytes_inv in H. destruct H as (Hn & -> & ->).
+  split; [|apply Zlen_zfirstn_enough; lia].
+  rewrite zskipn_nat. unfold Zlen in *. rewrite skipn_length. lia.
+Qed.
+
+Lemma len_padded : forall n l b pad r, p_padded n l = Some ((b, pad), r) ->
+  Zlen l = rndup n 4 + Zlen r /\ Zlen b = n.
+Proof.
+  intros n l b pad r H. unfold p_padded in H.
+  destruct (p_bytes n l) as [[b1 r1]|] eqn:E1; [|discriminate].
+  destruct (p_bytes (padlen n) r1) as [[p1 r2]|] eqn:E2; [|discriminate]. inversion H; subst.
+  destruct (len_bytes _ _ _ _ E1) as [H1 H2]. destruct (len_bytes _ _ _ _ E2) as [H3 _].
+  rewrite rndup4_padlen. split; lia.
+Qed.
+
+Lemma len_name : forall fmt l nm pad r, fmt = 1 \/ fmt = 2 \/ fmt = 5 -> p_name fmt l = Some ((nm, pad), r) ->
+  Zlen l = sz_nn fmt + rndup (Zlen nm) 4 + Zlen r.
+Proof.
+  intros fmt l nm pad r Hf H. unfold p_name in H.
+  destruct (p_nn fmt l) as [[n r0]|] eqn:En; [|discriminate].
+  pose proof (len_nn _ _ _ _ Hf En). destruct (len_padded _ _ _ _ _ H) as [H1 H2]. rewrite H2. lia.
+Qed.
+
+Lemma len_many : forall A (p : parser A) (len : A -> Z),
+  (forall l x r, p l = Some (x, r) -> Zlen l = len x + Zlen r) ->
+  forall k l xs r, p_many p k l = Some (xs, r) -> Zlen l = zsum (map len xs) + Zlen r.
+Proof.
+  intros A p len Hp. induction k as [|k IH]; intros l xs r H; cbn [p_many] in H.
+  - inversion H; subst. cbn. lia.
+  - destruct (p l) as [[x r1]|] eqn:Ex; [|discriminate].
+    destruct (p_many p k r1) as [[xs' r']|] eqn:E; [|discriminate]. inversion H; subst.
+    cbn [map zsum]. pose proof (Hp _ _ _ Ex). pose proof (IH _ _ _ E). lia.
+Qed.
+
+Lemma len_list : forall A fmt tag (p : parser A) (len : A -> Z), fmt = 1 \/ fmt = 2 \/ fmt = 5 ->
+  (forall l x r, p l = Some (x, r) -> Zlen l = len x + Zlen r) ->
+  forall l xs r, p_list fmt tag p l = Some (xs, r) -> Zlen l = 4 + sz_nn fmt + zsum (map len xs) + Zlen r.
+Proof.
+  intros A fmt tag p len Hf Hp l xs r H.
+  destruct (p_list_inv _ _ _ _ _ _ _ H) as (t & n & r1 & r2 & Et & En & Hc).
+  pose proof (len_u32 _ _ _ Et). pose proof (len_nn _ _ _ _ Hf En).
+  destruct Hc as [(_ & _ & -> & ->) | (_ & _ & Hm)].
+  - cbn. lia.
+  - pose proof (len_many _ p len Hp _ _ _ _ Hm). lia.
+Qed.
+
+Lemma len_dim_dec : forall fmt l x r, fmt = 1 \/ fmt = 2 \/ fmt = 5 -> p_dim fmt l = Some (x, r) ->
+  Zlen l = len_dim fmt (dd_dim x) + Zlen r.
+Proof.
+  intros fmt l x r Hf H. unfold p_dim in H.
+  destruct (p_name fmt l) as [[[nm pad] r1]|] eqn:En; [|discriminate].
+  destruct (p_nn fmt r1) as [[sz r2]|] eqn:Es; [|discriminate]. inversion H; subst.
+  pose proof (len_name _ _ _ _ _ Hf En). pose proof (len_nn _ _ _ _ Hf Es).
+  unfold len_dim. cbn [dd_dim d_name]. lia.
+Qed.
+
+Lemma len_att_dec : forall fmt l x r, fmt = 1 \/ fmt = 2 \/ fmt = 5 -> p_att fmt l = Some (x, r) ->
+  Zlen l = len_att fmt (da_att x) + Zlen r.
+Proof.
+  intros fmt l x r Hf H. unfold p_att in H.
+  destruct (p_name fmt l) as [[[nm pad] r1]|] eqn:En; [|discriminate].
+  destruct (p_u32 r1) as [[t r2]|] eqn:Et; [|discriminate].
+  destruct (negb (valid_type fmt t)); [discriminate|].
+  destruct (p_nn fmt r2) as [[n r3]|] eqn:Enn; [|discriminate].
+  destruct ((n <? 0) || (Zlen r3 <? n)); [discriminate|].
+  destruct (p_padded (n * xlen_type t) r3) as [[[data pad2] r4]|] eqn:Ep; [|discriminate]. inversion H; subst.
+  pose proof (len_name _ _ _ _ _ Hf En). pose proof (len_u32 _ _ _ Et). pose proof (len_nn _ _ _ _ Hf Enn).
+  destruct (len_padded _ _ _ _ _ Ep) as [H4 _].
+  unfold len_att. cbn [da_att a_name a_nelems a_type]. lia.
+Qed.
+
+Lemma len_attarray_dec : forall fmt l xs r, fmt = 1 \/ fmt = 2 \/ fmt = 5 ->
+  p_list fmt 12 (p_att fmt) l = Some (xs, r) -> Zlen l = len_attarray fmt (map da_att xs) + Zlen r.
+Proof.
+  intros fmt l xs r Hf H.
+  pose proof (len_list _ fmt 12 (p_att fmt) (fun x => len_att fmt (da_att x)) Hf
+                (fun l x r => len_att_dec fmt l x r Hf) _ _ _ H) as Hl.
+  unfold len_attarray. rewrite map_map. lia.
+Qed.
+
+Lemma len_var_dec : forall fmt l x r, fmt = 1 \/ fmt = 2 \/ fmt = 5 -> p_var fmt l = Some (x, r) ->
+  Zlen l = len_var fmt (dv_var x) + Zlen r.
+Proof.
+  intros fmt l x r Hf H. unfold p_var in H.
+  destruct (p_name fmt l) as [[[nm pad] r0]|] eqn:En; [|discriminate].
+  destruct (p_nn fmt r0) as [[nd r1]|] eqn:End; [|discriminate].
+  destruct (Zlen r1 <? nd); [discriminate|].
+  destruct (p_many (p_nn fmt) (Z.to_nat nd) r1) as [[dimids r2]|] eqn:Edim; [|discriminate].
+  destruct (p_list fmt 12 (p_att fmt) r2) as [[atts r3]|] eqn:Eatt; [|discriminate].
+  destruct (p_u32 r3) as [[t r4]|] eqn:Et; [|discriminate].
+  destruct (negb (valid_type fmt t)); [discriminate|].
+  destruct (p_nn fmt r4) as [[vsize r5]|] eqn:Evs; [|discriminate].
+  destruct (if fmt =? 1 then p_u32 r5 else p_u64 r5) as [[bg r6]|] eqn:Ebg; [|discriminate].
+  inversion H; subst.
+  pose proof (len_name _ _ _ _ _ Hf En). pose proof (len_nn _ _ _ _ Hf End).
+  pose proof (len_many _ (p_nn fmt) (fun _ => sz_nn fmt) (fun l x r Hx => len_nn fmt l x r Hf Hx) _ _ _ _ Edim) as Hd.
+  rewrite zsum_map_const in Hd.
+  pose proof (len_attarray_dec _ _ _ _ Hf Eatt). pose proof (len_u32 _ _ _ Et). pose proof (len_nn _ _ _ _ Hf Evs).
+  assert (Hb : Zlen r5 = sz_off fmt + Zlen r).
+  { unfold sz_off. destruct Hf as [-> | [-> | ->]]; cbn [Z.eqb Pos.eqb] in *; first [now apply len_u32 in Ebg | now apply len_u64 in Ebg]. }
+  unfold len_var. cbn [dv_var v_name v_dimids v_atts]. lia.
+Qed.
+
+Theorem decode_len : forall f d, decode f = Some d -> dc_len d = hdr_len (dc_hdr d).
+Proof.
+  intros f d H.
+  destruct (decode_inv f d H) as (ver & r & nr & r1 & dims & r2 & gatts & r3 & vars & r4 &
+                                   Hf & Hver & E1 & E2 & E3 & E4 & Hd).
+  subst d. cbn [dc_len dc_hdr]. unfold hdr_len. cbn [h_format h_dims h_gatts h_vars].
+  pose proof (len_nn _ _ _ _ Hver E1) as L1.
+  pose proof (len_list _ ver 10 (p_dim ver) (fun x => len_dim ver (dd_dim x)) Hver
+                (fun l x r => len_dim_dec ver l x r Hver) _ _ _ E2) as L2.
+  pose proof (len_attarray_dec _ _ _ _ Hver E3) as L3.
+  pose proof (len_list _ ver 11 (p_var ver) (fun x => len_var ver (dv_var x)) Hver
+                (fun l x r => len_var_dec ver l x r Hver) _ _ _ E4) as L4.
+  rewrite !map_map. subst f. rewrite !Zlen_cons. pose proof (Zlen_nonneg _ r4).
+  unfold byte in *. lia.
+Qed.
+
 Lemma fold_max_le : forall A (g : A -> Z) l m, fold_right Z.max 0 (map g l) <= m -> Forall (fun x => g x <= m) l.
 Proof.
   induction l as [|x l IH]; intros m H; [constructor|]. cbn [map fold_right] in H.
@@ -1782,7 +1927,7 @@ Proof.
 Qed.
 
 (* everything the proof needs, extracted from the executable predicate *)
-Lemma c04_valid_inv : forall mm d, c04_valid mm d = true ->
+Lemma c04_valid_inv : forall mm d, c04_valid mm d = true -> dc_len d = hdr_len (dc_hdr d) ->
   let h := dc_hdr d in
   let dims := h_dims h in
   h_numrecs h <= I64_MAX /\
@@ -1795,10 +1940,10 @@ Lemma c04_valid_inv : forall mm d, c04_valid mm d = true ->
   SZ_NC_VAR <= mm /\
   layQ dims (hdr_len h) (h_vars h) /\ check_vlens h = NC_NOERR /\ dc_len d = hdr_len h.
 Proof.
-  intros mm d H. cbv zeta. unfold c04_valid in H.
+  intros mm d H Hlen. cbv zeta. unfold c04_valid in H.
   set (h := dc_hdr d) in *. set (dims := h_dims h) in *.
   repeat rewrite andb_true_iff in H.
-  destruct H as [[[[[[[[[[[[[[H1 H2] H3] H4] H5] H6] H7] H8] H9] H10] H11] H12] H13] H14] H15].
+  destruct H as [[[[[[[[[[[[[H1 H2] H3] H4] H5] H6] H7] H8] H9] H10] H12] H13] H14] H15].
   assert (Hreq : hdr_req h <= mm) by lia. unfold hdr_req in Hreq. fold dims in Hreq.
   assert (Hd : Forall (dimQ mm) dims).
   { assert (Hr : fold_right Z.max 0 (map (fun d0 => Zlen (d_name d0) + 1) dims) <= mm) by lia.
@@ -1824,7 +1969,6 @@ Proof.
       + exact V8. }
   assert (Hvq : Forall (varQ mm (Zlen dims)) (h_vars h)) by (eapply Forall_impl; [|exact Hvars]; intros v Hv; cbv beta in Hv; destruct Hv; assumption).
   assert (Hpq : Forall (pvQ dims) (h_vars h)) by (eapply Forall_impl; [|exact Hvars]; intros v Hv; cbv beta in Hv; destruct Hv; assumption).
-  assert (Hlen : dc_len d = hdr_len h) by lia.
   repeat split; try lia; try assumption.
   - apply atts_ok_Q; [exact H7 | lia].
   - change (filter (Proofs_Reader.isr dims) (h_vars h)) with (filter (is_recvar dims) (h_vars h)).
@@ -1855,7 +1999,7 @@ Proof.
   intros mm f d Hdec Hval.
   destruct (decode_inv f d Hdec) as (ver & r & nr & r1 & dims & r2 & gatts & r3 & vars & r4 &
                                       Hf & Hver & E1 & E2 & E3 & E4 & Hd).
-  pose proof (c04_valid_inv mm d Hval) as Hinv. cbv zeta in Hinv.
+  pose proof (c04_valid_inv mm d Hval (decode_len f d Hdec)) as Hinv. cbv zeta in Hinv.
   rewrite Hd in Hinv. cbn [dc_hdr dc_len h_numrecs h_dims h_gatts h_vars h_format] in Hinv.
   destruct Hinv as (Hnr & Hcd & Hcg & Hcv & HdQ & Hdn & Hun & HgQ & HvQ & Hrd & Hrg & Hrv & Hmm & Hlay & Hvl & Hlen).
   rewrite !Zlen_map in *.
